@@ -290,6 +290,18 @@ Theorem C18_app_judgement_transfer : forall sc t, JudgeC18AppP.profile_C18b sc =
 Proof. exact JudgeC18AppP.C18_app_judgement_transfer. Qed.
 
 
+(* ---- source tie, second wave (DESIGN 11.7): definitions regenerated from the Rust source coincide with the model ---- *)
+From BEI Require Generated.DataSrc Generated.CondSrc Generated.ModifSrc Proofs.SrcTie2P.
+Theorem C18_source_scale : forall look tm m v, let r := ModifSrc.Scale_apply_src m v in (SrcTie2P.scale_of (fst r), snd r) = Modif.modif_apply look tm v (SrcTie2P.scale_of m).
+Proof. exact SrcTie2P.Scale_apply_tie. Qed.
+
+Theorem C18_source_delta_scale : forall look dt sp m v, let r := ModifSrc.DeltaScale_apply_src m dt v in (SrcTie2P.delta_scale_of (fst r), snd r) = Modif.modif_apply look (Cond.mkTime dt sp) v (SrcTie2P.delta_scale_of m).
+Proof. exact SrcTie2P.DeltaScale_apply_tie. Qed.
+
+Theorem C18_source_dead_zone : forall look tm m v, let r := ModifSrc.DeadZone_apply_src Modif.qsqrt m v in SrcTie2P.dead_zone_of (fst r) = fst (Modif.modif_apply look tm v (SrcTie2P.dead_zone_of m)) /\ Value.veq (snd r) (snd (Modif.modif_apply look tm v (SrcTie2P.dead_zone_of m))).
+Proof. exact SrcTie2P.DeadZone_apply_tie. Qed.
+
+
 Print Assumptions C18_numeric_dim.
 Print Assumptions C18_negate_axes.
 Print Assumptions C18_negate_dim.
@@ -347,3 +359,6 @@ Print Assumptions C18_judgement_transfer_exact.
 Print Assumptions C18_uexp_judgement_transfer.
 Print Assumptions C18_app_judgement_sound.
 Print Assumptions C18_app_judgement_transfer.
+Print Assumptions C18_source_scale.
+Print Assumptions C18_source_delta_scale.
+Print Assumptions C18_source_dead_zone.
